@@ -60,7 +60,7 @@ SPEC = {
     "components_real": ["fakesnow/* incl. patch()", "snowflake.connector (patched entry points)", "sqlglot", "duckdb engine with its real file format and WAL on a tmpfs/disk directory", "process death (fork + _exit)"],
     "components_stubbed": ["kill timing (chosen engine call / syscall index instead of a signal)", "torn write (page-aligned prefix written by the shim)"],
     "assumptions": ["page cache survives the kill", "single writer process per db_path at a time"],
-    "mandatory_probes": {"any": ["kill_before_event", "kill_after_event", "kill_at_syscall", "torn_write", "clean_exit", "body_exception", "inflight_statement", "open_txn_at_fault"]},
+    "mandatory_probes": {"any": ["kill_before_event", "kill_after_event", "kill_at_syscall", "torn_write", "clean_exit", "body_exception", "inflight_statement", "open_txn_at_fault", "memory_scenario", "memory_next_to_db_path"]},
 }
 
 HAZARDS = ["multi_call_statement"]
@@ -74,6 +74,8 @@ class BodyError(Exception):
 
 
 def gen(rng: Any, prop: str, tier: str) -> dict[str, Any]:
+    if rng.random() < 0.1:
+        return gen_memory(rng, tier)
     hazards = {"multi_call_statement": rng.random() < 0.15}
     g = Gen(rng, Model(), vary_spelling=False)
     two = rng.random() < 0.3
@@ -98,8 +100,8 @@ def gen(rng: Any, prop: str, tier: str) -> dict[str, Any]:
             continue
         dbs = m.sessions[sid]["txn"] if in_txn else m.dbs
         tables = [(d, s, t) for d in sorted(dbs) for s in sorted(dbs[d]) for t in sorted(dbs[d][s]["tables"])]
-        kind = rng.choices(["create", "insert", "update", "delete", "txn", "create_db", "create_schema", "view", "drop", "comment", "merge"],
-                           [8 if len(tables) < 2 else 3, 12, 4, 3, 7, 1, 1, 1, 1, 2 if hazards["multi_call_statement"] else 0, 5 if hazards["multi_call_statement"] else 0])[0]
+        kind = rng.choices(["create", "insert", "update", "delete", "txn", "create_db", "create_schema", "view", "drop", "comment", "merge", "write_pandas"],
+                           [8 if len(tables) < 2 else 3, 12, 4, 3, 7, 1, 1, 1, 1, 2 if hazards["multi_call_statement"] else 0, 5 if hazards["multi_call_statement"] else 0, 2 if not hazards["multi_call_statement"] else 0])[0]
         cd, cs = m.session_ctx(sid)
         if kind == "create" or (not tables and kind in ("insert", "update", "delete", "view", "drop", "comment", "merge")):
             free = [t for t in ("T1", "T2", "T3") if (cd, cs, t) not in tables] or ["T1"]
@@ -110,6 +112,11 @@ def gen(rng: Any, prop: str, tier: str) -> dict[str, Any]:
         elif kind == "insert":
             fq = rng.choice(tables)
             g.exec(sid, {"t": "insert", "ref": g.qualify(sid, fq, 0.0), "rows": [g.row_for(g.columns_of(fq) if not in_txn else dbs[fq[0]][fq[1]]["tables"][fq[2]]["cols"], 0.1) for _ in range(rng.choice([1, 1, 2, 3]))]})
+        elif kind == "write_pandas" and tables:
+            fq = rng.choice(tables)
+            rows = [[g.fresh(), g.fresh()] for _ in range(rng.choice([1, 2, 4]))]
+            g.ops.append({"s": sid, "k": "write_pandas", "table": fq[2], "database": fq[0], "schema": fq[1], "cols": ["A", "B"], "rows": rows, "st": {"t": "write_pandas"}})
+            dbs[fq[0]][fq[1]]["tables"][fq[2]]["rows"].extend([list(r) for r in rows])
         elif kind == "update":
             fq = rng.choice(tables)
             bcol = dbs[fq[0]][fq[1]]["tables"][fq[2]]["cols"][1]
@@ -158,6 +165,117 @@ def gen(rng: Any, prop: str, tier: str) -> dict[str, Any]:
                 rows.append([upd, f"m{b}"])
             rows.append([b, f"m{b}"])
     return {"profile": NAME, "config": {"hazards": hazards, "sessions": sids, "tier": tier}, "ops": g.ops, "points": None}
+
+
+def gen_memory(rng: Any, tier: str) -> dict[str, Any]:
+    """In-memory instances side by side (optionally next to a db_path instance) in one process: they must not touch
+    the disk nor see each other's objects."""
+    n_mem = rng.choice([2, 2, 3])
+    with_path = rng.random() < 0.5
+    insts = [f"m{i}" for i in range(n_mem)] + (["p"] if with_path else [])
+    ops = []
+    uid = 500
+    for inst in insts:
+        ops.append({"i": inst, "k": "connect", "database": rng.choice(["DB1", "db1"]), "schema": "S1"})
+    for _ in range(rng.randint(4, 14)):
+        inst = rng.choice(insts)
+        uid += 1
+        k = rng.choice(["create", "insert", "insert", "select", "show", "create_db"])
+        if k == "create":
+            ops.append({"i": inst, "k": "exec", "sql": f"CREATE TABLE IF NOT EXISTS T_{inst.upper()} (A INT, B VARCHAR(10)) COMMENT = 'of {inst}'"})
+        elif k == "insert":
+            ops.append({"i": inst, "k": "exec", "sql": f"CREATE TABLE IF NOT EXISTS T_{inst.upper()} (A INT, B VARCHAR(10)) COMMENT = 'of {inst}'"})
+            ops.append({"i": inst, "k": "exec", "sql": f"INSERT INTO T_{inst.upper()} VALUES ({uid}, '{inst}')"})
+        elif k == "select":
+            other = rng.choice(insts)
+            ops.append({"i": inst, "k": "probe", "sql": f"SELECT * FROM DB1.S1.T_{other.upper()}", "other": other})
+        elif k == "show":
+            ops.append({"i": inst, "k": "show"})
+        else:
+            ops.append({"i": inst, "k": "exec", "sql": f"CREATE DATABASE IF NOT EXISTS DBX_{inst.upper()}"})
+    return {"profile": NAME, "config": {"mode": "memory", "instances": insts, "tier": tier, "hazards": {}}, "ops": ops, "points": None}
+
+
+def proc_memory(w: int, base: str, case: dict[str, Any]) -> None:
+    from fakesnow.instance import FakeSnow
+
+    sim = core.begin(base)
+    cwd = os.path.join(base, "cwd")
+    D = os.path.join(base, "dbs")
+    os.makedirs(cwd)
+    os.makedirs(D)
+    os.chdir(cwd)
+    lib = ctypes.CDLL(None)
+    have_shim = hasattr(lib, "fsv_arm")
+    if have_shim:
+        lib.fsv_count.restype = ctypes.c_long
+        lib.fsv_arm(cwd.encode(), ctypes.c_long(-1), ctypes.c_int(0))  # counts file-system calls under the process's cwd
+    fs = {i: (FakeSnow(db_path=D) if i == "p" else FakeSnow()) for i in case["config"]["instances"]}
+    conns: dict[str, Any] = {}
+    created: dict[str, set[str]] = {i: set() for i in fs}
+    bad: list[dict[str, Any]] = []
+    for j, op in enumerate(case["ops"]):
+        inst = op["i"]
+        try:
+            if op["k"] == "connect":
+                conns[inst] = fs[inst].connect(database=op["database"], schema=op["schema"])
+            elif inst not in conns:
+                continue
+            elif op["k"] == "exec":
+                conns[inst].cursor().execute(op["sql"])
+                if op["sql"].startswith("CREATE TABLE"):
+                    created[inst].add(f"T_{inst.upper()}")
+            elif op["k"] == "probe":
+                other = op["other"]
+                try:
+                    rows = conns[inst].cursor().execute(op["sql"]).fetchall()
+                    if other != inst:
+                        bad.append({"check": "foreign-object-visible", "op": j, "instance": inst, "object_of": other, "rows": repr(rows)[:120]})
+                    elif f"T_{inst.upper()}" in created[inst] and any(r[1] != inst for r in rows):
+                        bad.append({"check": "foreign-rows-visible", "op": j, "instance": inst, "rows": repr(rows)[:120]})
+                except Exception as e:  # noqa: BLE001
+                    if other == inst and f"T_{inst.upper()}" in created[inst]:
+                        bad.append({"check": "own-object-missing", "op": j, "instance": inst, "error": str(e)[:120]})
+            elif op["k"] == "show":
+                rows = conns[inst].cursor().execute("SHOW TABLES IN ACCOUNT").fetchall()
+                names = {r[1] for r in rows if not str(r[1]).startswith("_fs_")}
+                foreign = sorted(n for n in names if n.startswith("T_") and n != f"T_{inst.upper()}")
+                if foreign:
+                    bad.append({"check": "foreign-object-listed", "op": j, "instance": inst, "objects": foreign})
+        except Exception as e:  # noqa: BLE001
+            bad.append({"check": "statement-raises", "op": j, "instance": inst, "sql": op.get("sql"), "error": f"{type(e).__name__}: {str(e)[:160]}"})
+            break
+    listing_cwd = sorted(os.listdir(cwd))
+    listing_d = sorted(os.listdir(D))
+    want_d = set()
+    if "p" in fs:
+        want_d = {f for f in listing_d if f.upper().startswith(("DB1.DB", "DBX_P.DB"))}
+    if listing_cwd:
+        bad.append({"check": "file-in-cwd", "files": listing_cwd})
+    stray = [f for f in listing_d if f not in want_d]
+    if stray:
+        bad.append({"check": "in-memory-instance-wrote-to-db_path", "files": stray})
+    n_sys = lib.fsv_count() if have_shim else 0
+    if n_sys:
+        bad.append({"check": "file-system-calls-under-cwd", "count": n_sys})
+    _emit(w, {"ev": "memory", "bad": bad, "ops": len(case["ops"]), "events": sim.engine_events, "shim": have_shim})
+    os._exit(0)
+
+
+def run_memory(case: dict[str, Any]) -> dict[str, Any]:
+    base = fresh_dir(f"mem-{case.get('run_seed', 0)}")
+    try:
+        code, recs = in_child(proc_memory, base, case)
+        rec = next(r for r in recs if r["ev"] == "memory")
+        violations = []
+        for b in rec["bad"][:2]:
+            violations.append(v_(f"memory/{b['check']}", "in-memory instances never touch the disk nor see each other's objects", b))
+        insts = case["config"]["instances"]
+        return {"violations": violations, "evaluations": 1, "fingerprints": [fp([insts, [[o["i"], o["k"]] for o in case["ops"]]])], "digest": fp(rec), "steps": rec["events"], "ops": rec["ops"],
+                "probes": {"memory_scenario": 1, "memory_next_to_db_path": 1 if "p" in insts else 0}, "faults": {}, "strategy": "memory", "nontrivial": True, "fingerprint": fp(insts)}
+    finally:
+        shutil.rmtree(base, ignore_errors=True)
+        core.end()
 
 
 # --------------------------------------------------------------------------- snapshot of a db_path instance
@@ -427,6 +545,8 @@ def fresh_dir(tag: str) -> str:
 
 
 def run(case: dict[str, Any]) -> dict[str, Any]:
+    if case["config"].get("mode") == "memory":
+        return run_memory(case)
     tier = case["config"].get("tier", "quick")
     probes: dict[str, int] = {}
     faults: dict[str, int] = {}
